@@ -727,6 +727,9 @@ func c3CheckReference(rc *RunCtx, sc *c3Scenario, ref *c3Ref, o *c3Out, ctx func
 	if o.Res.Exit != want {
 		rc.Violate("ref-exit", "exit status %d, expected %d (reference: %d parse errors, %d matched)\nstderr: %q\n%s", o.Res.Exit, want, ref.ParseErrors, ref.Matched, clip(string(o.Res.Stderr), 300), ctx())
 	}
+	if sc.Kind == "histo" {
+		c3CheckHistoSnapshot(rc, ref, o, ctx)
+	}
 	if !sc.HasCSV {
 		if sc.Kind == "analyze" {
 			c3CheckAnalyze(rc, ref, o, ctx)
@@ -890,6 +893,40 @@ func c3CheckReference(rc *RunCtx, sc *c3Scenario, ref *c3Ref, o *c3Out, ctx func
 					return
 				}
 			}
+		}
+	}
+}
+
+var c3HistoRow = regexp.MustCompile(`^(.*?) {4,}(-?\d+)(?: |$)`)
+
+// c3CheckHistoSnapshot: the final snapshot of a histogram shows exactly the reference keys and counts
+// (the "final output reflects all matches" clause at CLI level). Skipped when a key spans lines.
+func c3CheckHistoSnapshot(rc *RunCtx, ref *c3Ref, o *c3Out, ctx func() string) {
+	for k := range ref.Hist {
+		if strings.ContainsAny(k, "\n\r") || strings.Contains(k, "    ") {
+			return
+		}
+	}
+	got := map[string]string{}
+	for _, l := range strings.Split(o.Stdout, "\n") {
+		if l == "" || strings.HasPrefix(l, "Matched: ") {
+			continue
+		}
+		m := c3HistoRow.FindStringSubmatch(l)
+		if m == nil {
+			rc.Violate("ref-snapshot-shape", "cannot read the histogram line %q\n%s", l, ctx())
+			return
+		}
+		got[m[1]] = m[2]
+	}
+	if len(got) != len(ref.Hist) {
+		rc.Violate("ref-snapshot-content", "the final snapshot shows %d keys, the reference has %d\nsnapshot:\n%s\n%s", len(got), len(ref.Hist), clip(o.Stdout, 600), ctx())
+		return
+	}
+	for k, v := range ref.Hist {
+		if got[k] != strconv.FormatInt(v, 10) {
+			rc.Violate("ref-snapshot-content", "the final snapshot shows %q = %q, the reference count is %d\nsnapshot:\n%s\n%s", k, got[k], v, clip(o.Stdout, 600), ctx())
+			return
 		}
 	}
 }
